@@ -643,7 +643,7 @@ def z3val(v):
 
 # ---------------------------------------------------------------- running harnesses
 
-def run_harness(exe, args, inputs, workdir, timeout=120, maxsteps=None, tag='r'):
+def run_harness(exe, args, inputs, workdir, timeout=120, maxsteps=None, tag='r', replay_ints=None):
     os.makedirs(workdir, exist_ok=True)
     inp = os.path.join(workdir, tag + '.in'); out = os.path.join(workdir, tag + '.json')
     with open(inp, 'w') as f:
@@ -651,6 +651,8 @@ def run_harness(exe, args, inputs, workdir, timeout=120, maxsteps=None, tag='r')
     if os.path.exists(out): os.remove(out)
     env = dict(os.environ, FPSYM_INPUTS=inp, FPSYM_OUT=out, ASAN_OPTIONS='detect_leaks=0:abort_on_error=0:exitcode=77:allocator_may_return_null=1:detect_odr_violation=0')
     if maxsteps: env['FPSYM_MAXSTEPS'] = str(maxsteps)
+    if replay_ints:
+        ri = os.path.join(workdir, tag + '.ints'); open(ri, 'w').write(' '.join(str(v) for v in replay_ints)); env['FPSYM_REPLAY_INTS'] = ri
     t = time.time()
     try:
         r = subprocess.run([exe] + [str(a) for a in args], env=env, capture_output=True, text=True, timeout=timeout, cwd=workdir, errors='replace')
